@@ -37,6 +37,7 @@ THEOREMS = [
     "Nix.C01.C01_source_len_size",
     "Nix.C01.C01_source_create",
     "Nix.C01.C01_source_step",
+    "Nix.C01.C01_source_pinned",
     "Nix.C01.C01_conversion",
     "Nix.C01.C01_refused_kinds",
     "Nix.C01.C01_raised_unchanged",
@@ -62,8 +63,6 @@ ASSUMPTIONS = [
     "float equal to 2^31, 2^32, 2^63 or 2^64 written into an integer array",
     "text never contains NUL (h5py refuses embedded NULs in variable-length strings)",
     "rank >= 1 (the property quantifies over ranks 1..4; 0-d arrays are outside the generators)",
-    "source arrays with a zero-length left-over leading dimension (h5py accepts them without a size check) are "
-    "outside the generators",
     "index items are integers (Python or numpy), slices and Ellipsis; boolean masks and index lists (fancy indexing) "
     "are C06's subject",
     "the compiler harness/extract/datasetshape.py renders the Python subset of the array I/O methods faithfully "
@@ -495,8 +494,8 @@ def _mirror_assign(mirror, ix, d, src_dt, dtn):
     tshape = np.shape(target)
     ds = bcast_shape(d.shape, tshape)
     if ds is None:
-        if 0 in d.shape[:max(0, len(d.shape) - len(tshape))]:
-            return "any", None          # zero-length surplus dimension: h5py does not check it (outside the generators)
+        if d.size == 0 and np.size(target) == 0:
+            return "any", None          # nothing to store into nothing: h5py does not look at the surplus dimensions
         return "refuse", None
     conv = convert_exact(d, src_dt, dtn)
     if conv is None:
@@ -921,6 +920,15 @@ class Gen:
             if r.random() < 0.2:
                 s = [1] * r.randint(1, 2) + s
             return s
+        if c < 0.935:
+            # a source without elements (refused for a selection with elements, /repo 61e9077)
+            self.tag("src.empty")
+            s = list(tshape)
+            if s and r.random() < 0.5:
+                s[r.randrange(len(s))] = 0
+            else:
+                s = [0] + s
+            return s
         self.tag("src.mismatch")
         s = list(tshape)
         if s and r.random() < 0.7:
@@ -1063,16 +1071,14 @@ class Gen:
             cur = None
             self.tag("create.nothing")
         steps = []
-        # the generator follows the array exactly (numpy mirror), so that "valid"/"malformed" tags mean what they
-        # say and sources with a zero-length surplus dimension (an h5py hole, see ASSUMPTIONS) are never produced
+        # the generator follows the array exactly (numpy mirror), so that "valid"/"malformed" tags mean what they say
         exp, dtn, mirror = expected_create({"create": create})
         if exp == "ok":
             size_cap = 600
             for _ in range(r.randint(2, 12)):
                 st, _new = self.step(dtn, list(mirror.shape))
                 if in_h5py_hole(mirror, st):
-                    self.tag("skipped.zero-length-surplus-source")
-                    continue
+                    self.tag("src.zero-length-surplus")
                 e2, new = mirror_step(mirror, dtn, st) if st[0] != "read" else ("ok", mirror)
                 if e2 == "maybe":
                     # performed iff the storage layer converts this pair of kinds (the generator may know that: it
